@@ -675,6 +675,11 @@ def rule_D5_structure(ctx, typer, clsname, closing=None, writer="to_dotfile"):
                 isinstance(c_, ast.Call) and isinstance(c_.func, ast.Attribute) and c_.func.attr.startswith("__iter") for c_ in ast.walk(st.value)) \
                 and not any(isinstance(x_, (ast.Yield, ast.YieldFrom)) for x_ in ast.walk(st.value)):
             continue  # a named intermediate value (e.g. the parts of the header line): produces no line
+        elif isinstance(st, ast.Expr) and isinstance(st.value, ast.Call) and isinstance(st.value.func, ast.Attribute) \
+                and st.value.func.attr in ("debug", "info", "warning", "error", "log") and isinstance(st.value.func.value, ast.Name) \
+                and isinstance(it.module.assigns.get(st.value.func.value.id), ast.Call) \
+                and norm(it.module.assigns[st.value.func.value.id].func) in ("logging.getLogger", "getLogger"):
+            continue  # diagnostics through the module logger: produces no line
         else:
             order.append(("other", st))
     want = ["yield", "__iter_options", "__iter_nodes", "__iter_edges"] + (["yield"] if closing else [])
